@@ -5,6 +5,7 @@
       - multi-word rings: large::pow / pow_nontrivial (sliding window with a table of odd powers)
     The carrier operations are total; rings whose operations may panic instantiate [T := result Z]. *)
 From Dashu Require Import Base.Prelude Base.Words Int.BitsSpec.
+From DashuGen Require Import ModRingGen.
 Open Scope Z_scope.
 
 Section GenericPow.
@@ -58,7 +59,9 @@ Definition pow_prim (raw : T) (exp : Z) : T :=
 
 (** ---------------- sliding window (large::pow_nontrivial) ---------------- *)
 
-(** choose_pow_window_len: cost(ws) = (1 << (ws-1)) - 1 + n / (ws+1) *)
+(** choose_pow_window_len: cost(ws) = (1 << (ws-1)) - 1 + n / (ws+1) - the hand transcription of the pinned source,
+    kept for reference; the model below runs [gen_choose_window_len], REGENERATED from pow.rs on every run
+    (coq/gen/ModRingGen.v), so a retuned cost function or break test changes the model with the code *)
 Definition wcost (n ws : Z) : Z := 2 ^ (ws - 1) - 1 + n / (ws + 1).
 
 Fixpoint choose_loop (fuel : nat) (n ws c : Z) : Z :=
@@ -123,8 +126,11 @@ Definition pow_window_with (wl : Z) (raw : T) (exp : Z) : result T :=
   let table := build_table (Z.to_nat (2 ^ (wl - 1) - 1)) raw val in
   window_loop (Z.to_nat bl) raw table wl exp (bl - 2) val.
 
+(** window_len = choose_pow_window_len(exp.bit_len()); a length outside [1, WORD_BITS) would make the shifts of the
+    window extraction overflow (a panic of the debug build) *)
 Definition pow_nontrivial_large (raw : T) (exp : Z) : result T :=
-  pow_window_with (choose_window_len (Z.log2 exp + 1)) raw exp.
+  let wl := gen_choose_window_len w (Z.log2 exp + 1) in
+  if (1 <=? wl) && (wl <? w) then pow_window_with wl raw exp else Panic Undocumented.
 
 (** large::pow *)
 Definition pow_large (raw : T) (exp : Z) : result T :=
